@@ -193,20 +193,43 @@ def handle : P String := do
     let cells ← many nc (do let nv ← nat; many nv (many d rat))
     let k := if shape == "tria" then FE.Kind.S else FE.Kind.H
     let f := if fam == "L2" then FE.Fam.L2 else FE.Fam.L1
+    let xp ← (do let ts ← get; match ts with | "XP" :: v :: _ => pure (v == "1") | _ => pure false)
+    let dudv := kind.startsWith "dudv"
+    let ab := (kind.drop 4).toString.toNat?.getD 0
     match FE.tabOf f k d, LocalFE.ruleOf (shape == "tria") d rule with
     | some t, some r =>
-      let outs := cells.map fun V =>
+      -- the integrand polynomials of one cell (for identity / force: times the determinant polynomial)
+      let polysOf := fun (V : List (List Rat)) =>
         let g := LocalFE.geoOf k d V
-        let vals : List Rat :=
-          if kind == "force" then
-            let fr := LocalFE.pullBack k d V fcoef
-            (List.range t.nloc).map fun i => LocalFE.localEntry r g.detJ (LocalFE.forceIntegrand t fr i)
-          else
-            (List.range t.nloc).flatMap fun i => (List.range t.nloc).map fun j =>
-              LocalFE.localEntry r g.detJ
-                (if kind == "lapl" then LocalFE.laplIntegrand t d g i j else LocalFE.massIntegrand t i j)
-        showRatsL vals
-      pure (" ".intercalate (s!"L {cells.length}" :: outs))
+        let dp := if k == FE.Kind.S then Poly.const g.detJ else LocalFE.detPoly k d V
+        if kind == "force" then
+          let fr := LocalFE.pullBack k d V fcoef
+          (dp, true, (List.range t.nloc).map fun i => LocalFE.forceIntegrand t fr i)
+        else if kind == "mass" then
+          (dp, true, (List.range t.nloc).flatMap fun i => (List.range t.nloc).map fun j => LocalFE.massIntegrand t i j)
+        else if dudv then
+          (Poly.const g.detJ, false, (List.range t.nloc).flatMap fun i => (List.range t.nloc).map fun j =>
+            LocalFE.dudvIntegrand t d g (ab / d) (ab % d) i j)
+        else
+          (Poly.const g.detJ, false, (List.range t.nloc).flatMap fun i => (List.range t.nloc).map fun j =>
+            LocalFE.laplIntegrand t d g i j)
+      -- (integrands are normalised: zero terms dropped, like monomials merged - the same polynomial function)
+      let outs := cells.map fun V =>
+        let (dp, var, fs) := polysOf V
+        let g := LocalFE.geoOf k d V
+        showRatsL (fs.map fun F =>
+          if var then LocalFE.localEntryVar r (Poly.normalize dp) (Poly.normalize F)
+          else LocalFE.localEntry r g.detJ (Poly.normalize F))
+      -- the decidable hypotheses of `local_integral_exact(_multilinear)`: some entry of the exactness table for this rule
+      -- contains every monomial of every integrand, and the determinant does not change sign in the cubature points
+      let exact := cells.all fun V =>
+        let (dp, var, fs) := polysOf V
+        (r.detNonneg (Poly.normalize dp) || !var) &&
+        LocalFE.exactTable.any fun e => e.1 == (shape == "tria") && e.2.1 == d && e.2.2.1 == rule &&
+          fs.all fun F => LocalFE.monosIn
+            (if var then Poly.normalize (Poly.mul (Poly.normalize F) (Poly.normalize dp)) else Poly.normalize F) e.2.2.2
+      if xp && !exact then pure "EXACTNESS-HYPOTHESES-FAIL"
+      else pure (" ".intercalate (s!"L {cells.length}" :: outs))
     | _, _ => pure "BAD-OP unsupported"
   | "bgsd" =>
     -- one Burgers job task over the cells in natural order: the sequence of `local_delta` values
